@@ -26,5 +26,10 @@ func (k Keeper) GetAccountInfo(goCtx context.Context, req *types.QueryGetAccount
 		return &types.QueryGetAccountInfoResponse{AccAddress: "Account Not found", PubKey: ""}, nil
 	}
 
+	if accountInfo.GetPubKey() == nil {
+		// an account that has not signed a transaction yet has no public key
+		return &types.QueryGetAccountInfoResponse{AccAddress: accountInfo.GetAddress().String(), PubKey: ""}, nil
+	}
+
 	return &types.QueryGetAccountInfoResponse{AccAddress: accountInfo.GetAddress().String(), PubKey: accountInfo.GetPubKey().String()}, nil
 }
